@@ -18,7 +18,8 @@
 (* citation keys it defines), F.files = Seq([syn, defs]) with              *)
 (* defs = Seq([t |-> "b"|"l"|"m", i |-> index]).                           *)
 (*   block [name, nrexcl, atoms: Seq([an, ty, rn, res]), inters, cite]     *)
-(*   link  [orders: Seq(Int), atoms: Seq([oi, an, rn (set), mk]), inters,  *)
+(*   link  [orders: Seq(Int), atoms: Seq([oi, an, rn (set), mk, ty]),      *)
+(*          inters,                                                         *)
 (*          rep: Seq([a, ty]), del: set of link atoms]                     *)
 (*   mod   [name, atoms: Seq([an, rep, ty]), inters: Seq([kind, a, b, par])]*)
 (*   interaction [kind, at: Seq(index), par, ver]                          *)
@@ -166,7 +167,7 @@ PBase(c, L, bx) ==
       gidx(f, a) == LET p == slice[f][blk[f].atoms[a].res] IN off[p] + IdxOf(mine[p], a)
       atom(g) == LET p == resOf[g]
                      a == blk[p].atoms[mine[p][g - off[p]]]
-                 IN [resid |-> Resid(c, p), rn |-> a.rn, an |-> a.an, ty |-> a.ty, tag |-> bx[BlkName(c, p)].tag]
+                 IN [resid |-> Resid(c, p), rn |-> a.rn, an |-> a.an, ty |-> a.ty, ty0 |-> a.ty, tag |-> bx[BlkName(c, p)].tag]
   IN [atoms |-> TLCEval([g \in 1..total |-> atom(g)]),
       gattr |-> TLCEval([p \in Pos(c) |-> (off[p] + 1)..(off[p] + nat[p])]),
       ints |-> UNION {{[kind |-> x.kind, at |-> [j \in DOMAIN x.at |-> gidx(f, x.at[j])], par |-> x.par, ver |-> x.ver, li |-> 0] : x \in ToSet(blk[f].inters)} : f \in firsts},
@@ -188,11 +189,17 @@ ResMatches(c, l) == {phi \in [1..NOrd(l) -> Pos(c)] :
 \* a star order only asks for a residue different from the others (phi is injective), so both orientations of a two-residue `*` link match
 IsStar(o) == o >= 100
 OrderOK(c, l, phi) == \A i, j \in 1..NOrd(l) : (IsStar(l.orders[i]) \/ IsStar(l.orders[j])) \/ Resid(c, phi[j]) - Resid(c, phi[i]) = l.orders[j] - l.orders[i]
+\* A link atom may ask for an atom type (ty).  Link atoms are matched against the residue FRAGMENTS, which keep the block's ORIGINAL atom
+\* attributes for the whole run: what another link (or an earlier match) has replaced in the molecule is not seen (ty0 = the block's type;
+\* ty = the current type in the molecule).  Hence a replacing link and a link selecting on the replaced attribute commute (they are not in MustKeep).
+\* Deviation replaceVisible (seed5-C13-2): replaced values are mirrored into the fragments, later links select on them.
+SeenTy(atom) == IF Dev.replaceVisible THEN atom.ty ELSE atom.ty0
 \* link atom -> the one atom of its residue with that name (0 where there is none or more than one)
 ImgVec(c, M, l, phi) == TLCEval([a \in DOMAIN l.atoms |->
                            LET p == phi[l.atoms[a].oi]
                                S == {g \in M.gattr[p] : M.atoms[g].an = l.atoms[a].an /\ c.rn[p] \in l.atoms[a].rn
-                                                          /\ (l.atoms[a].mk = "" \/ c.mark[p] = l.atoms[a].mk)}
+                                                          /\ (l.atoms[a].mk = "" \/ c.mark[p] = l.atoms[a].mk)
+                                                          /\ (l.atoms[a].ty = "" \/ SeenTy(M.atoms[g]) = l.atoms[a].ty)}
                            IN IF Cardinality(S) = 1 THEN CHOOSE g \in S : TRUE ELSE 0])
 Prefilter(M, l) == \E g \in DOMAIN M.atoms : M.atoms[g].rn \in LinkRns(l)
 IntImg(l, vs, k, iv) == {[kind |-> l.inters[q].kind, at |-> [j \in DOMAIN l.inters[q].at |-> iv[l.inters[q].at[j]]], par |-> l.inters[q].par, ver |-> vs[q], li |-> k] : q \in DOMAIN l.inters}
